@@ -33,8 +33,8 @@ type Program struct {
 	Prog      *ssa.Program
 	Funcs     map[string]*ssa.Function // by fn.String()
 	Contracts map[string]*FuncContract
-	SpecFuncs map[string]*SpecFunc      // by Key()
-	Ghosts    map[string]*GhostField    // owner key + "." + name
+	SpecFuncs map[string]*SpecFunc   // by Key()
+	Ghosts    map[string]*GhostField // owner key + "." + name
 	Axioms    []AxiomDecl
 	Lemmas    []LemmaDecl
 	SpecFiles []*SpecFile
